@@ -169,13 +169,23 @@ func (w *world) checkCrashImage(seq *Seq, k, opIdx int, img db.KeyValueStore, wi
 		hx.Fatalf("oracle reply: %q", ev)
 	}
 	var mp, mflags []string
-	if withModel {
-		ml := or.Ask(fmt.Sprintf("crash %x %d ; ", W, k)+strings.Join(w.mops, " ; "), 1)[0]
-		mp = strings.SplitN(ml, " # ", 2)
-		if len(mp) != 2 {
-			hx.Fatalf("oracle reply: %q", ml)
-		}
-		mflags = strings.Fields(mp[1])
+	// The model is asked about the history UP TO AND INCLUDING the operation during which the process
+	// died (the crash image depends on nothing later), so that the hypotheses of the theorems (ops_env,
+	// ops_fresh, snap_discipline) are evaluated for exactly the history this image belongs to.
+	prefix := w.mops[:opIdx+1]
+	ml := or.Ask(fmt.Sprintf("crash %x %d ; ", W, k)+strings.Join(prefix, " ; "), 1)[0]
+	mp = strings.SplitN(ml, " # ", 2)
+	if len(mp) != 2 {
+		hx.Fatalf("oracle reply: %q", ml)
+	}
+	mflags = strings.Fields(mp[1])
+	if len(mflags) != 7 {
+		hx.Fatalf("oracle reply: %q", ml)
+	}
+	disciplined := mflags[6] == "1" // no block reverted between a snapshot and the next restart (C05_index)
+	hasSnap := !strings.Contains(enc, "snap=-")
+	if hasSnap {
+		c.Hist["crash-image-holds-a-snapshot"]++
 	}
 	consistent := ev[0] == "1" && ev[4] == "1" && len(notes) == 0
 	// observations on a fresh process (behind a counting proxy: its initialisation may write), which finally
@@ -205,8 +215,14 @@ func (w *world) checkCrashImage(seq *Seq, k, opIdx int, img db.KeyValueStore, wi
 		c.Violation(class, what+"the next block cannot be stored: "+nsErr.Error(), cs, false)
 	case !evOK:
 		class := "crash:event-query-differs:" + kind
-		if !strings.Contains(enc, "snap=-") {
+		if hasSnap && !disciplined {
+			// what survives the repair: a snapshot written in the middle of the process's life
+			// (Blockchain.WriteRunningEventFilter before shutdown) and a later revert of a block it covers
 			class = "crash:stale-filter-snapshot:event-false-negatives"
+			c.Hist["stale-midlife-snapshot-accepted-by-fresh-process"]++
+		} else if hasSnap {
+			// a snapshot that the restart following it should have consumed (repaired in /repo): not known
+			class = "crash:stale-shutdown-snapshot:event-false-negatives"
 		}
 		c.Violation(class, what+"fresh process event query differs from the receipts: "+evWhat, cs, false)
 	}
@@ -218,9 +234,20 @@ func (w *world) checkCrashImage(seq *Seq, k, opIdx int, img db.KeyValueStore, wi
 		c.Violation("model-mismatch:crash-image", what+"decoded image differs from the model's\n   impl : "+enc+"\n   model: "+mp[0], cs, true)
 		return
 	}
+	if disciplined {
+		c.Hist["crash-image-of-snapshot-disciplined-history(C05_index applies)"]++
+		if mflags[3] == "1" && (!evOK || mflags[2] != "1") {
+			c.Violation("theorem:index-covers-fails-for-disciplined-history", what+"the snapshot discipline holds (no revert between a snapshot and the next restart) but the event index has false negatives: "+evWhat, cs, false)
+		}
+		if mflags[3] == "1" && mflags[4] != "1" {
+			c.Violation("theorem:discipline-does-not-imply-fresh", what+"snap_discipline holds but ops_fresh does not (C05_discipline_fresh)", cs, true)
+		}
+	} else {
+		c.Hist["crash-image-of-history-with-a-revert-after-a-midlife-snapshot"]++
+	}
 	if mflags[4] == "1" {
-		c.Hist["crash-image-of-snapshot-fresh-history(C05_index applies)"]++
-		if !evOK || mflags[2] != "1" {
+		c.Hist["crash-image-of-snapshot-fresh-history(C05_index_fresh applies)"]++
+		if mflags[3] == "1" && (!evOK || mflags[2] != "1") {
 			c.Violation("theorem:index-covers-fails-for-fresh-history", what+"ops_fresh holds but the event index has false negatives: "+evWhat, cs, false)
 		}
 	}
